@@ -3,21 +3,29 @@ import Sm9.Proofs.Pow
 import Sm9.Proofs.GtOrder
 import Sm9.Proofs.MillerNeg
 import Sm9.Proofs.MillerFrobEquivariant
+import Sm9.Proofs.Bilinear
 /-!
 # C01 — Pairing is bilinear, non-degenerate and trivial on the identity
 
-What is a theorem here: identity inputs (in *any* representation x, y, 0) give one in all
-three entry points; `Gt::pow` is exponentiation.  **Not proved: bilinearity in general** — it is a
-theorem about the Tate/ate pairing that needs divisor theory absent from Mathlib (see
-DESIGN.md §6 C01); the check decides it on sampled inputs (`law.bilin`, `law.additive`, `law.additive2`),
-labelled as tests in the evidence.  **Proved fragments of bilinearity** (for all valid `P ≠ O`, all `Q ≠ O` of
-`⟨P2⟩`, any representatives, all three entry points): the scalars `−1` on either side
-(`e(−P,Q) = e(P,−Q) = e(P,Q)⁻¹`, `e(−P,−Q) = e(P,Q)`: the Miller function of the negated argument is the
-`q⁶`-conjugate up to sign, and conjugation inverts after the final exponentiation) and the scalar `q` on the
-right (`e(P,[q]Q) = e(P,Q)^q`: the Miller function is equivariant under the `q`-Frobenius, which acts on `⟨P2⟩`
-as multiplication by `q`), and every pairing value has order dividing `r`.  The pairing of the generators is not one (kernel
-evaluation of the model) and every pairing value g satisfies g^(r−1)·g = 1 (C17's
-final-exponentiation theorem).
+**Every clause is a theorem** (for all valid `P`, `P'` of `E(Fq)` and all `Q`, `Q'` of `⟨P2⟩`, in any Jacobian
+representation, identities and zero scalars included, all three entry points):
+
+* `bilinear` / `fast_bilinear` / `prepared_bilinear`: `e(aP, bQ) = e(P,Q)^(ab)` (as integer power and as `Gt::pow` of the
+  product in `Fr`);
+* `additive_left…`, `additive_right…`: `e(P+P', Q) = e(P,Q)·e(P',Q)`, `e(P, Q+Q') = e(P,Q)·e(P,Q')`;
+* identity inputs in *any* representation `(x, y, 0)` give one; the pairing of the generators is not one (kernel evaluation);
+  every pairing value `g` satisfies `g^(r−1)·g = 1`.
+
+How bilinearity is proved without a theory of divisors (Proofs/BilinLeftLines.lean, BilinLeft.lean, BilinRightAlg.lean,
+BilinRight.lean, Bilinear.lean; each entry point is first proved equal to the textbook Miller function `specMiller`, C02):
+*additivity in P* — reciprocity of two lines (`∏ G(Aᵢ) = −∏ L(Bⱼ)` over the three points of each line, an identity that says
+the lines meet in one point) turns `L(P₁)L(P₂)/L(P₁+P₂)` for each line `L` of the chain into values `h = G∘ψ` of the line `G`
+through `P₁, P₂` at the chain points; they telescope along the chain to `h(Q)^(6t+2)·h(πQ)·h(π²Q)⁻¹·h(π³Q) =
+h(Q)^(6t+2+q−q²+q³) = h(Q)^(m·r)` (Frobenius: `h∘π = h^q` because `G` has coefficients in `Fq`), which the final
+exponentiation kills; *additivity in Q* — in Mathlib's coordinate ring of the twist the three Miller functions generate ideals
+that differ by the lines `l_{sQ₁,sQ₂}`, `s ∈ {1, π, −π², −π³}` and verticals, so `F_{Q₁}F_{Q₂} = c·F_{Q₁+Q₂}·l^(6t+2)·l_π·l_{−π²}/l_{−π³}`
+up to verticals, and evaluated at `P` the correction is `l(P)^(6t+2+q−q²+q³)`, killed again; *scalars* by induction from
+additivity and representative independence.  The older fragments (scalars `−1`, `q`; order) are kept below.
 -/
 namespace Sm9.C01
 
@@ -111,5 +119,58 @@ end fragments
 
 /-- non-vacuity: a non-canonical identity, as left behind by P − P -/
 example : ({ x := Fq.ofNat 4, y := Fq.ofNat (q - 8), z := 0 } : G1).z = 0 := rfl
+
+/-! ## bilinearity (full) -/
+section bilinear
+variable (P : G1) (Q : G2) (hP : G1.Valid P) (hQ : G2.Valid Q) (k : Nat) (hk : G2.toAff Q = k • G2.toAff (G.one : G2))
+include hP hQ hk
+
+/-- **`e(aP, bQ) = e(P, Q)^(ab)`** for `pairing()`: as an integer power and as `Gt::pow` with the product in `Fr` -/
+theorem bilinear (a b : Fr) :
+    ∃ g, Api.pairing P Q = .ok g ∧ Api.pairing (P.mul a) (Q.mul b) = .ok (g ^ (a.val * b.val)) ∧
+      Api.pairing (P.mul a) (Q.mul b) = .ok (Api.gtPow g (a * b)) :=
+  Miller.api_pairing_bilinear P Q hP hQ k hk a b
+/-- the same for `fast_pairing()` -/
+theorem fast_bilinear (a b : Fr) :
+    ∃ g, Api.fast_pairing P Q = .ok g ∧ Api.fast_pairing (P.mul a) (Q.mul b) = .ok (g ^ (a.val * b.val)) ∧
+      Api.fast_pairing (P.mul a) (Q.mul b) = .ok (Api.gtPow g (a * b)) :=
+  Miller.api_fast_pairing_bilinear P Q hP hQ k hk a b
+/-- the same for `G2Prepared::from(Q).pairing(&P)` -/
+theorem prepared_bilinear (a b : Fr) :
+    ∃ g, (do let pr ← Api.prepare Q; Api.preparedPairing pr P) = .ok g ∧
+      (do let pr ← Api.prepare (Q.mul b); Api.preparedPairing pr (P.mul a)) = .ok (g ^ (a.val * b.val)) ∧
+      (do let pr ← Api.prepare (Q.mul b); Api.preparedPairing pr (P.mul a)) = .ok (Api.gtPow g (a * b)) :=
+  Miller.api_prepared_pairing_bilinear P Q hP hQ k hk a b
+/-- **`e(P + P', Q) = e(P, Q)·e(P', Q)`**, all three entry points -/
+theorem additive_left (P' : G1) (hP' : G1.Valid P') :
+    (∃ g g', Api.pairing P Q = .ok g ∧ Api.pairing P' Q = .ok g' ∧ Api.pairing (P.add P') Q = .ok (g * g')) ∧
+    (∃ g g', Api.fast_pairing P Q = .ok g ∧ Api.fast_pairing P' Q = .ok g' ∧
+      Api.fast_pairing (P.add P') Q = .ok (g * g')) ∧
+    (∃ g g', (do let pr ← Api.prepare Q; Api.preparedPairing pr P) = .ok g ∧
+      (do let pr ← Api.prepare Q; Api.preparedPairing pr P') = .ok g' ∧
+      (do let pr ← Api.prepare Q; Api.preparedPairing pr (P.add P')) = .ok (g * g')) :=
+  ⟨Miller.api_pairing_add_left P P' Q hP hP' hQ k hk, Miller.api_fast_pairing_add_left P P' Q hP hP' hQ k hk,
+   Miller.api_prepared_pairing_add_left P P' Q hP hP' hQ k hk⟩
+/-- **`e(P, Q + Q') = e(P, Q)·e(P, Q')`**, all three entry points -/
+theorem additive_right (Q' : G2) (hQ' : G2.Valid Q') (k' : Nat) (hk' : G2.toAff Q' = k' • G2.toAff (G.one : G2)) :
+    (∃ g g', Api.pairing P Q = .ok g ∧ Api.pairing P Q' = .ok g' ∧ Api.pairing P (Q.add Q') = .ok (g * g')) ∧
+    (∃ g g', Api.fast_pairing P Q = .ok g ∧ Api.fast_pairing P Q' = .ok g' ∧
+      Api.fast_pairing P (Q.add Q') = .ok (g * g')) ∧
+    (∃ g g', (do let pr ← Api.prepare Q; Api.preparedPairing pr P) = .ok g ∧
+      (do let pr ← Api.prepare Q'; Api.preparedPairing pr P) = .ok g' ∧
+      (do let pr ← Api.prepare (Q.add Q'); Api.preparedPairing pr P) = .ok (g * g')) :=
+  ⟨Miller.api_pairing_add_right P Q Q' hP hQ hQ' k k' hk hk', Miller.api_fast_pairing_add_right P Q hP hQ k hk Q' hQ' k' hk',
+   Miller.api_prepared_pairing_add_right P Q hP hQ k hk Q' hQ' k' hk'⟩
+/-- no entry point panics on valid inputs, and every value (identities included) has order dividing `r` -/
+theorem pairing_total_and_order : ∃ g, Api.pairing P Q = .ok g ∧ g ^ r = 1 := by
+  obtain ⟨g, hg⟩ := Miller.api_pairing_total P Q hP hQ k hk
+  exact ⟨g, hg, Miller.api_pairing_pow_r P Q hP hQ k hk g hg⟩
+end bilinear
+
+/-- non-vacuity of the bilinearity hypotheses: the generators (`k = 1`), scalars `2` and `r − 1` -/
+example : ∃ g, Api.pairing (G.one : G1) (G.one : G2) = .ok g ∧
+    Api.pairing ((G.one : G1).mul 2) ((G.one : G2).mul (-1)) = .ok (g ^ ((2 : Fr).val * (-1 : Fr).val)) := by
+  obtain ⟨g, h1, h2, _⟩ := bilinear _ _ G1.one_valid G2.one_valid 1 (one_nsmul _).symm 2 (-1)
+  exact ⟨g, h1, h2⟩
 
 end Sm9.C01
